@@ -524,6 +524,11 @@ func (n *c25Node) setLeader(b bool) bool {
 	if b == n.leader {
 		return true
 	}
+	if b {
+		// a new tenure starts: number it BEFORE the service learns about it, the leader loop
+		// starts POSTing as soon as it does
+		n.tenure++
+	}
 	n.svc.leaderObCh <- b
 	deadline := time.Now().Add(5 * time.Second)
 	for n.svc.IsLeader() != b || len(n.svc.leaderObCh) > 0 {
@@ -533,9 +538,6 @@ func (n *c25Node) setLeader(b bool) bool {
 		time.Sleep(50 * time.Microsecond)
 	}
 	n.leader = b
-	if b {
-		n.tenure++
-	}
 	return n.barrier()
 }
 
@@ -640,6 +642,7 @@ func (n *c25Node) applyOnly(t *testing.T, op string) bool {
 			return false
 		}
 		n.svc.Stop()
+		n.tenure++ // a restart ends the tenure (the restarted service starts as follower)
 		n.start(t)
 		for _, e := range n.log {
 			if e.idx > n.snap {
